@@ -694,7 +694,7 @@ class Partition:
             dsout.attrs.update(
                 {f"part{ind}": f"fmin={fmin}, fmax={fmax}, dmin={dmin}, dmax={dmax}"}
             )
-        dsout.attrs.update({f"part{ind + 1}": "complement"})
+        dsout.attrs.update({f"part{len(rectangles)}": "complement"})
 
         return dsout.fillna(0.0)
 
